@@ -101,6 +101,19 @@ func c11Gen(r *RNG) *c11Tmpl {
 			m.plural = true
 			m.plur = c11GenItems(r, c11Vars)
 		}
+		// a message that shares its meaning and singular text with the one before it and is nevertheless a different
+		// message (a different id): plain next to plural, or two plurals with different {default} texts.  Each
+		// must get its own catalogue entry and its own translation.
+		if i > 0 && r.Intn(4) == 0 {
+			prev := t.msgs[i-1]
+			m.meaning, m.sing = prev.meaning, prev.sing
+			if !prev.plural || r.Intn(2) == 0 {
+				m.plural = true
+				m.plur = append(c11GenItems(r, c11Vars), c11Item{text: "twin", v: -1})
+			} else {
+				m.plural, m.plur = false, nil
+			}
+		}
 		switch r.Intn(5) {
 		case 0:
 			m.inLoop = true
@@ -238,6 +251,24 @@ var c11Locales = []struct {
 		}
 		return 2
 	}, "function(n){return n==1 ? 0 : n==2 ? 1 : 2;}"},
+	// catalogues whose Plural-Forms header is NOT the customary rule of the locale they are named for: the
+	// catalogue's own header decides which msgstr a count selects (fr customarily has n > 1, en two forms, pt/ru others)
+	{"fr", "nplurals=2; plural=(n != 1);", 2, func(n int) int {
+		if n != 1 {
+			return 1
+		}
+		return 0
+	}, "function(n){return n != 1 ? 1 : 0;}"},
+	{"en", "nplurals=3; plural=n==1 ? 0 : n==2 ? 1 : 2;", 3, func(n int) int {
+		if n == 1 {
+			return 0
+		}
+		if n == 2 {
+			return 1
+		}
+		return 2
+	}, "function(n){return n==1 ? 0 : n==2 ? 1 : 2;}"},
+	{"ru", "nplurals=1; plural=0;", 1, func(n int) int { return 0 }, "function(n){return 0;}"},
 }
 
 func init() {
@@ -364,6 +395,18 @@ func directC11(g *G, rep *Report) {
 		}
 		for _, tm := range reg.Templates {
 			walk(tm.Node)
+		}
+		// every message of the bundle has an entry of its own in the extracted template (identified by its id)
+		{
+			have := map[uint64]bool{}
+			for _, e := range ex {
+				have[e.id] = true
+			}
+			for id := range phValue {
+				if !have[id] {
+					viol("c11-not-extracted", "a message of the bundle has no entry in the extracted catalogue template: it can never be translated", potBuf.String(), "an entry with id="+strconv.FormatUint(id, 10))
+				}
+			}
 		}
 		// 3. catalogues
 		for _, variant := range []string{"identity", "reversed", "decorated", "partial"} {
